@@ -1,6 +1,25 @@
-"""Translator: regenerates AriVerif/Gen/*.lean from /repo's current source (see DESIGN §2.3)."""
+"""Translator: regenerates lean/AriVerif/Gen/*.lean from /repo's *current* source on every run.
+
+A deliberately small Python-subset -> Lean translator over `ast` (DESIGN §2.3).  Targets:
+  G1 KeepAlive : Server._use_keep_alive_hint, Server._change_keep_alive, keep-alive part of Server.__init__
+  G2 Version   : both getSupportedVersion, version prologue / success epilogue of Server._on_init
+  G3 Exc       : protocol._EXCEPTIONS_MAP, exception class hierarchy, designated classes per write_* function
+  G4 Pool      : pool sizing in Server.__init__
+Anything outside the supported subset raises Unsupported(file:line) -> that target is reported as a
+broken tie (never silently skipped) and the previously generated file is left in place so that the
+other properties still build.
+"""
+import ast
 import os
+import re
 import common as C
+
+GEN = os.path.join(C.LEAN, "AriVerif", "Gen")
+PKG = "lightstreamer_adapter"
+
+
+class Unsupported(Exception):
+    pass
 
 
 def write_if_changed(path, text):
@@ -15,6 +34,685 @@ def write_if_changed(path, text):
     return True
 
 
+def parse(rel):
+    path = os.path.join(C.REPO, PKG, rel)
+    return ast.parse(open(path, encoding="utf-8").read(), filename=path), path
+
+
+def find_class(tree, name):
+    for n in tree.body:
+        if isinstance(n, ast.ClassDef) and n.name == name:
+            return n
+    raise Unsupported("class %s not found" % name)
+
+
+def find_func(node, name):
+    for n in node.body:
+        if isinstance(n, ast.FunctionDef) and n.name == name:
+            return n
+    raise Unsupported("function %s not found" % name)
+
+
+def lean_str(s):
+    return '"' + s.replace("\\", "\\\\").replace('"', '\\"') + '"'
+
+
+def is_logging(stmt):
+    """`self._log.info(...)`, `DATA_LOGGER.warning(...)` … : dropped."""
+    if isinstance(stmt, ast.Expr) and isinstance(stmt.value, ast.Call):
+        f = stmt.value.func
+        if isinstance(f, ast.Attribute) and f.attr in ("debug", "info", "warning", "error", "fatal", "exception", "critical"):
+            base = ast.unparse(f.value)
+            return "log" in base.lower()
+    return isinstance(stmt, ast.Expr) and isinstance(stmt.value, ast.Constant) and isinstance(stmt.value.value, str)
+
+
+class Tr:
+    """CPS translator of a statement block into one Lean expression.
+
+    env : python-name -> (lean expression, type); types: rat orat str ostr bool int oint
+    consts : dotted python constant -> (lean expression, type)
+    effects: {call-or-target text: handler(tr, node, env) -> env}   (state lives in env under '$' keys)
+    """
+
+    def __init__(self, path, consts, num="rat", ret=None, rais=None, effects=None):
+        self.path, self.consts, self.num = path, consts, num
+        self.ret, self.rais, self.effects = ret, rais, effects or {}
+        self.n = 0
+
+    def bad(self, node, why=""):
+        raise Unsupported("%s:%d: unsupported %s %s" % (os.path.relpath(self.path, C.REPO), getattr(node, "lineno", 0),
+                                                          type(node).__name__, why))
+
+    def fresh(self, base):
+        self.n += 1
+        return "%s_%d" % (re.sub(r"\W", "_", base), self.n)
+
+    def numlit(self, v):
+        if isinstance(v, bool) or not isinstance(v, (int, float)):
+            return None
+        if isinstance(v, float):
+            if v != int(v):
+                return None
+            v = int(v)
+        ty = "Rat" if self.num == "rat" else "Int"
+        return "(%d : %s)" % (v, ty) if v >= 0 else "(-%d : %s)" % (-v, ty)
+
+    # ---- expressions -> (lean, type)
+    def ex(self, n, env):
+        if isinstance(n, ast.Constant):
+            if n.value is None:
+                return "none", "none"
+            if isinstance(n.value, bool):
+                return ("true" if n.value else "false"), "bool"
+            if isinstance(n.value, str):
+                return lean_str(n.value), "str"
+            lit = self.numlit(n.value)
+            if lit:
+                return lit, self.num
+            self.bad(n, "constant")
+        if isinstance(n, ast.Name):
+            if n.id in env:
+                return env[n.id]
+            self.bad(n, "name " + n.id)
+        if isinstance(n, (ast.Attribute, ast.Subscript)):
+            key = ast.unparse(n)
+            if key in env:
+                return env[key]
+            if key in self.consts:
+                return self.consts[key]
+            self.bad(n, key)
+        if isinstance(n, ast.UnaryOp) and isinstance(n.op, ast.Not):
+            a, t = self.ex(n.operand, env)
+            if t != "bool":
+                self.bad(n, "not on " + t)
+            return "(!%s)" % a, "bool"
+        if isinstance(n, ast.UnaryOp) and isinstance(n.op, ast.USub):
+            a, t = self.ex(n.operand, env)
+            return "(-%s)" % a, t
+        if isinstance(n, ast.BoolOp):
+            parts = [self.ex(v, env) for v in n.values]
+            if any(t != "bool" for _, t in parts):
+                self.bad(n, "boolop on non-bool")
+            op = " && " if isinstance(n.op, ast.And) else " || "
+            return "(" + op.join(a for a, _ in parts) + ")", "bool"
+        if isinstance(n, ast.BinOp):
+            a, ta = self.ex(n.left, env)
+            b, tb = self.ex(n.right, env)
+            ops = {ast.Add: "+", ast.Sub: "-", ast.Mult: "*", ast.Div: "/"}
+            if type(n.op) not in ops or ta != tb or ta not in ("rat", "int") or (ta == "int" and isinstance(n.op, ast.Div)):
+                self.bad(n, "binop")
+            return "(%s %s %s)" % (a, ops[type(n.op)], b), ta
+        if isinstance(n, ast.Compare) and len(n.ops) == 1:
+            return self.cmp(n, env)
+        if isinstance(n, ast.Call):
+            f = n.func
+            if isinstance(f, ast.Name) and f.id == "float" and len(n.args) == 1:
+                a, t = self.ex(n.args[0], env)
+                if t != "rat":
+                    self.bad(n, "float() of " + t)
+                return a, "rat"
+            if isinstance(f, ast.Name) and f.id in ("max", "min") and len(n.args) == 2:
+                a, ta = self.ex(n.args[0], env)
+                b, tb = self.ex(n.args[1], env)
+                if ta != tb or ta not in ("rat", "int"):
+                    self.bad(n, "max/min types")
+                return "(%s %s %s)" % (f.id, a, b), ta
+            if isinstance(f, ast.Attribute) and f.attr == "startswith" and len(n.args) == 1 and isinstance(n.args[0], ast.Constant):
+                a, t = self.ex(f.value, env)
+                if t != "str":
+                    self.bad(n, "startswith on " + t)
+                return "(%s.startsWith %s)" % (a, lean_str(n.args[0].value)), "bool"
+            key = ast.unparse(f)
+            if key in self.effects and self.effects[key][0] == "expr":
+                return self.effects[key][1](self, n, env)
+            self.bad(n, "call " + ast.unparse(f))
+        if isinstance(n, ast.IfExp):
+            return self.ifexp(n, env)
+        self.bad(n)
+
+    def cmp(self, n, env):
+        op, r = n.ops[0], n.comparators[0]
+        if isinstance(op, (ast.Is, ast.IsNot)):
+            self.bad(n, "`is` outside an if-test")
+        if isinstance(op, (ast.In, ast.NotIn)):
+            a, t = self.ex(n.left, env)
+            if not isinstance(r, (ast.Tuple, ast.List)) or t != "str":
+                self.bad(n, "in")
+            elems = []
+            for e in r.elts:
+                b, tb = self.ex(e, env)
+                if tb != "str":
+                    self.bad(n, "in elems")
+                elems.append("%s == %s" % (a, b))
+            body = "(" + " || ".join(elems) + ")" if elems else "false"
+            return ("(!%s)" % body if isinstance(op, ast.NotIn) else body), "bool"
+        a, ta = self.ex(n.left, env)
+        b, tb = self.ex(r, env)
+        if ta != tb:
+            self.bad(n, "compare %s with %s" % (ta, tb))
+        if isinstance(op, (ast.Eq, ast.NotEq)):
+            if ta not in ("str", "rat", "int", "bool"):
+                self.bad(n, "== on " + ta)
+            return "(%s %s %s)" % (a, "==" if isinstance(op, ast.Eq) else "!=", b), "bool"
+        ops = {ast.Lt: "<", ast.LtE: "≤", ast.Gt: ">", ast.GtE: "≥"}
+        if type(op) not in ops or ta not in ("rat", "int"):
+            self.bad(n, "ordering")
+        return "(decide (%s %s %s))" % (a, ops[type(op)], b), "bool"
+
+    def none_test(self, test):
+        """`X is None` / `X is not None` -> (key, positive?)"""
+        if isinstance(test, ast.Compare) and len(test.ops) == 1 and isinstance(test.ops[0], (ast.Is, ast.IsNot)) \
+                and isinstance(test.comparators[0], ast.Constant) and test.comparators[0].value is None:
+            return ast.unparse(test.left), isinstance(test.ops[0], ast.Is)
+        return None
+
+    def split_none(self, node, test, env, on_true, on_false):
+        """`if X is [not] None: on_true else: on_false` as a match that rebinds X to its content."""
+        key, is_none = self.none_test(test)
+        if key not in env:
+            self.bad(node, "None-test on unknown " + key)
+        a, t = env[key]
+        none_k, some_k = (on_true, on_false) if is_none else (on_false, on_true)
+        if t == "none":
+            return none_k(env)
+        if not t.startswith("o"):
+            self.bad(node, "None-test on non-optional " + key + ":" + t)
+        v = self.fresh(key.split(".")[-1])
+        env_none = dict(env)
+        env_none[key] = ("none", "none")
+        env_some = dict(env)
+        env_some[key] = (v, t[1:])
+        return "(match %s with\n | none => %s\n | some %s => %s)" % (a, none_k(env_none), v, some_k(env_some))
+
+    def ifexp(self, n, env):
+        res_ty = {}
+
+        def branch(node):
+            def k(e):
+                a, t = self.ex(node, e)
+                res_ty[id(node)] = t
+                return (a, t)
+            return k
+        if self.none_test(n.test):
+            out = {}
+
+            def wrap(node):
+                def k(e):
+                    a, t = self.ex(node, e)
+                    out[id(node)] = t
+                    return "\0%d\0%s\0" % (id(node), a)
+                return k
+            s = self.split_none(n, n.test, env, wrap(n.body), wrap(n.orelse))
+            tb, te = out[id(n.body)], out[id(n.orelse)]
+            ty = self.unify(n, tb, te)
+
+            def fix(m):
+                t = out[int(m.group(1))]
+                return self.coerce(m.group(2), t, ty)
+            return re.sub("\0(\\d+)\0(.*?)\0", fix, s, flags=re.S), ty
+        c, tc = self.ex(n.test, env)
+        if tc != "bool":
+            self.bad(n, "ifexp test")
+        a, ta = self.ex(n.body, env)
+        b, tb = self.ex(n.orelse, env)
+        ty = self.unify(n, ta, tb)
+        return "(if %s then %s else %s)" % (c, self.coerce(a, ta, ty), self.coerce(b, tb, ty)), ty
+
+    def unify(self, n, a, b):
+        if a == b:
+            return a
+        if a == "none" and b != "none":
+            return b if b.startswith("o") else "o" + b
+        if b == "none":
+            return a if a.startswith("o") else "o" + a
+        if a == "o" + b or b == "o" + a:
+            return a if a.startswith("o") else b
+        self.bad(n, "cannot unify %s / %s" % (a, b))
+
+    def coerce(self, a, t, ty):
+        if t == ty or t == "none":
+            return a
+        if ty == "o" + t:
+            return "(some %s)" % a
+        raise Unsupported("coerce %s to %s" % (t, ty))
+
+    # ---- statements: CPS, k(env) gives the Lean expression for "the rest"
+    def block(self, stmts, env, k):
+        if not stmts:
+            return k(env)
+        s, rest = stmts[0], stmts[1:]
+
+        def cont(e):
+            return self.block(rest, e, k)
+        if isinstance(s, ast.Pass) or is_logging(s):
+            return cont(env)
+        if isinstance(s, ast.Return):
+            if self.ret is None:
+                self.bad(s, "return")
+            return self.ret(self, s, env)
+        if isinstance(s, ast.Raise):
+            if self.rais is None:
+                self.bad(s, "raise")
+            return self.rais(self, s, env)
+        if isinstance(s, ast.Assign) and len(s.targets) == 1:
+            key = ast.unparse(s.targets[0])
+            if key in self.effects and self.effects[key][0] == "assign":
+                return cont(self.effects[key][1](self, s, env))
+            if isinstance(s.targets[0], ast.Name):
+                a, t = self.ex(s.value, env)
+                if t == "none":
+                    e2 = dict(env)
+                    e2[key] = ("none", "none")
+                    return cont(e2)
+                v = self.fresh(key)
+                e2 = dict(env)
+                e2[key] = (v, t)
+                return "(let %s := %s;\n %s)" % (v, a, cont(e2))
+            self.bad(s, "assignment to " + key)
+        if isinstance(s, ast.Expr) and isinstance(s.value, ast.Call):
+            key = ast.unparse(s.value.func)
+            if key in self.effects and self.effects[key][0] == "call":
+                return cont(self.effects[key][1](self, s.value, env))
+            self.bad(s, "call " + key)
+        if isinstance(s, ast.If):
+            if self.none_test(s.test):
+                return self.split_none(s, s.test, env,
+                                       lambda e: self.block(s.body, e, cont),
+                                       lambda e: self.block(s.orelse, e, cont))
+            c, tc = self.ex(s.test, env)
+            if tc != "bool":
+                self.bad(s, "if-test of type " + tc)
+            return "(if %s then\n %s\n else\n %s)" % (c, self.block(s.body, env, cont), self.block(s.orelse, env, cont))
+        if isinstance(s, ast.Try):
+            key = "try"
+            if key in self.effects:
+                return cont(self.effects[key][1](self, s, env))
+        self.bad(s)
+
+
+HEADER = "/- GENERATED by harness/extract.py from %s — do not edit; regenerated on every check run. -/\n"
+
+
+def class_consts(cls, num, prefix):
+    out = {}
+    for n in cls.body:
+        if isinstance(n, ast.Assign) and len(n.targets) == 1 and isinstance(n.targets[0], ast.Name) \
+                and isinstance(n.value, ast.Constant) and isinstance(n.value.value, (int, float)) \
+                and not isinstance(n.value.value, bool):
+            ty = "Rat" if num == "rat" else "Int"
+            for p in prefix:
+                out["%s.%s" % (p, n.targets[0].id)] = ("(%d : %s)" % (n.value.value, ty), num)
+    return out
+
+
+# ------------------------------------------------------------------------------------- G1
+def gen_keepalive():
+    tree, path = parse("server.py")
+    srv = find_class(tree, "Server")
+    consts = class_consts(srv, "rat", ["Server", "self"])
+    # _use_keep_alive_hint
+    f = find_func(srv, "_use_keep_alive_hint")
+    if [a.arg for a in f.args.args] != ["self", "keepalive_hint"]:
+        raise Unsupported("_use_keep_alive_hint signature changed")
+
+    def change(tr, call, env):
+        if len(call.args) != 1 or call.keywords:
+            tr.bad(call, "_change_keep_alive arity")
+        a, t = tr.ex(call.args[0], env)
+        if t != "rat":
+            tr.bad(call, "_change_keep_alive argument type " + t)
+        e = dict(env)
+        e["$ka"] = ("(some %s)" % a, "orat")
+        return e
+    tr = Tr(path, consts, "rat", effects={"self._change_keep_alive": ("call", change)})
+    env = {"keepalive_hint": ("hint", "orat"), "self._configured_keep_alive": ("cfg", "orat"), "$ka": ("none", "orat")}
+    use_hint = tr.block(f.body, env, lambda e: e["$ka"][0])
+    # _change_keep_alive
+    g = find_func(srv, "_change_keep_alive")
+    arg = g.args.args[1].arg
+    seen = {}
+
+    def cfg_assign(tr_, s, env_):
+        a, t = tr_.ex(s.value, env_)
+        seen["config"] = a
+        return env_
+
+    def rm_call(tr_, call, env_):
+        a, t = tr_.ex(call.args[0], env_)
+        seen["sender"] = a
+        return env_
+    tr2 = Tr(path, consts, "rat", effects={"self._config['keep_alive']": ("assign", cfg_assign),
+                                           "self._request_manager.change_keep_alive": ("call", rm_call)})
+
+    def fin(e):
+        if "config" not in seen or "sender" not in seen:
+            raise Unsupported("_change_keep_alive no longer sets both the config value and the sender interval")
+        return "(%s, %s)" % (seen["config"], seen["sender"])
+    change_body = tr2.block(g.body, {arg: ("ms", "rat")}, fin)
+    # __init__ : configured / initial keepalive
+    init = find_func(srv, "__init__")
+    exprs = {}
+    for s in init.body:
+        if isinstance(s, ast.Assign) and len(s.targets) == 1:
+            key = ast.unparse(s.targets[0])
+            if key in ("self._configured_keep_alive", "self._config['keep_alive']"):
+                tr3 = Tr(path, consts, "rat")
+                exprs[key] = tr3.ex(s.value, {"keep_alive": ("keep_alive", "orat")})
+    if len(exprs) != 2:
+        raise Unsupported("Server.__init__: keep-alive assignments not found")
+    cfg_e, cfg_t = exprs["self._configured_keep_alive"]
+    ini_e, ini_t = exprs["self._config['keep_alive']"]
+    if cfg_t != "orat" or ini_t != "rat":
+        raise Unsupported("Server.__init__: keep-alive assignment types %s %s" % (cfg_t, ini_t))
+    # _Sender loop guard: `if self._keepalive > 0` (timed get) else blocking get
+    snd = find_class(tree, "_Sender")
+    run = find_func(snd, "_do_run")
+    guard = None
+    for n in ast.walk(run):
+        if isinstance(n, ast.If) and "self._keepalive" in ast.unparse(n.test):
+            guard = Tr(path, consts, "rat").ex(n.test, {"self._keepalive": ("k", "rat")})[0]
+            break
+    if guard is None:
+        raise Unsupported("_Sender._do_run: keepalive guard not found")
+    text = HEADER % "server.py (Server._use_keep_alive_hint, _change_keep_alive, __init__, _Sender._do_run guard)"
+    text += "namespace Ari.Gen\n\n"
+    text += "/-- argument (milliseconds) of the last `_change_keep_alive` call made by `_use_keep_alive_hint`, if any.\n"
+    text += "    `cfg` = `self._configured_keep_alive`, `hint` = parsed `keepalive_hint.millis`. -/\n"
+    text += "def useHint (cfg : Option Rat) (hint : Option Rat) : Option Rat :=\n %s\n\n" % use_hint
+    text += "/-- `_change_keep_alive`: (value stored in the config, value handed to the sender), seconds. -/\n"
+    text += "def changeKeepAlive (ms : Rat) : Rat × Rat :=\n %s\n\n" % change_body
+    text += "/-- `self._configured_keep_alive` (milliseconds) from the constructor argument (seconds). -/\n"
+    text += "def configuredMs (keep_alive : Option Rat) : Option Rat :=\n %s\n\n" % cfg_e
+    text += "/-- initial `keep_alive` property (seconds). -/\n"
+    text += "def initialKeepAlive (keep_alive : Option Rat) : Rat :=\n %s\n\n" % ini_e
+    text += "/-- the writer loop's guard for a timed wait. -/\n"
+    text += "def senderTimed (k : Rat) : Bool :=\n %s\n\nend Ari.Gen\n" % guard
+    return text
+
+
+# ------------------------------------------------------------------------------------- G2
+def gen_version():
+    tree, path = parse("server.py")
+    out = HEADER % "server.py (getSupportedVersion ×2, Server._on_init version prologue and success epilogue)"
+    out += "namespace Ari.Gen\n\n"
+
+    def ret(tr, s, env):
+        a, t = tr.ex(s.value, env)
+        if t != "str":
+            tr.bad(s, "return type " + t)
+        return "(some %s)" % a
+
+    def rais(tr, s, env):
+        return "none"
+    for cls, name in (("MetadataProviderServer", "metaSupported"), ("DataProviderServer", "dataSupported")):
+        f = find_func(find_class(tree, cls), "getSupportedVersion")
+        args = [a.arg for a in f.args.args]
+        if len(args) != 3:
+            raise Unsupported("%s.getSupportedVersion signature" % cls)
+        tr = Tr(path, {}, "rat", ret=ret, rais=rais)
+        body = tr.block(f.body, {args[1]: ("proxy_version", "str"), args[2]: ("max_version", "str")},
+                        lambda e: (_ for _ in ()).throw(Unsupported("%s.getSupportedVersion may fall off its end" % cls)))
+        out += "/-- `%s.getSupportedVersion`; `none` = raises. -/\n" % cls
+        out += "def %s (proxy_version max_version : String) : Option String :=\n %s\n\n" % (name, body)
+    # _on_init
+    f = find_func(find_class(tree, "Server"), "_on_init")
+    maxv = None
+    tryn = None
+    for s in f.body:
+        if isinstance(s, ast.Assign) and ast.unparse(s.targets[0]) == "max_version" and isinstance(s.value, ast.Constant):
+            maxv = s.value.value
+        if isinstance(s, ast.Try):
+            tryn = s
+    if maxv is None or tryn is None:
+        raise Unsupported("_on_init: max_version / try statement not found")
+    # prologue = statements of the try body up to (and including) the getSupportedVersion assignment
+    pro, tail = [], None
+    for i, s in enumerate(tryn.body):
+        if isinstance(s, ast.Assign) and "getSupportedVersion" in ast.unparse(s.value):
+            call = s.value
+            if ast.unparse(call) != "self.getSupportedVersion(proxy_version, max_version)" or ast.unparse(s.targets[0]) != "advertised_version":
+                raise Unsupported("_on_init: getSupportedVersion call shape changed: " + ast.unparse(s))
+            tail = tryn.body[i + 1:]
+            break
+        pro.append(s)
+    if tail is None:
+        raise Unsupported("_on_init: getSupportedVersion call not found in try body")
+    tr = Tr(path, {}, "rat", rais=rais)
+
+    def k(e):
+        a, t = e["proxy_version"]
+        if t != "str":
+            raise Unsupported("_on_init: proxy_version may still be None when negotiated")
+        return "(some %s)" % a
+    body = tr.block(pro, {"proxy_version": ("pv", "ostr")}, k)
+    out += "def maxVersion : String := %s\n\n" % lean_str(maxv)
+    out += "/-- version prologue of `_on_init`: the version string handed to `getSupportedVersion`; `none` = raises. -/\n"
+    out += "def prologue (pv : Option String) : Option String :=\n %s\n\n" % body
+    # statements after negotiation inside the try must be: params merge, initialize, optional set_listener
+    tail_src = [ast.unparse(s) for s in tail]
+    expect = ["if params is not None:\n    init_params = params.copy()\n    parsed_data.update(init_params)",
+              "adapter.initialize(parsed_data, config_file)",
+              "if invoke_listener is True:\n    adapter.set_listener(self)"]
+    if tail_src != expect:
+        raise Unsupported("_on_init: statements between negotiation and the reply changed: %r" % tail_src)
+    out += "/-- shape check passed: after negotiation `_on_init` merges `params` over the Proxy parameters,\n"
+    out += "    calls `adapter.initialize(parsed_data, config_file)` and then (Data only) `adapter.set_listener`. -/\n"
+    out += "def initCallsShape : Bool := true\n\n"
+    # handlers: exactly `except Exception as err: res = subprotocol.write_init(exception=err)`
+    if len(tryn.handlers) != 1 or ast.unparse(tryn.handlers[0].type) != "Exception" or \
+            [ast.unparse(s) for s in tryn.handlers[0].body] != ["res = subprotocol.write_init(exception=err)"]:
+        raise Unsupported("_on_init: except clause changed")
+    # epilogue (try-else)
+    state = {}
+
+    def close_assign(tr_, s, env):
+        a, t = tr_.ex(s.value, env)
+        e = dict(env)
+        e["$close"] = (a, "bool")
+        return e
+
+    def params_assign(tr_, s, env):
+        if ast.unparse(s.value) not in ("None", "{}"):
+            tr_.bad(s, "proxy_parameters value")
+        e = dict(env)
+        e["$pp"] = ("none", "ostr")
+        return e
+
+    def params_set(tr_, s, env):
+        a, t = tr_.ex(s.value, env)
+        if t != "str":
+            tr_.bad(s, "ARI.version value type")
+        e = dict(env)
+        e["$pp"] = ("(some %s)" % a, "ostr")
+        return e
+
+    def res_assign(tr_, s, env):
+        if ast.unparse(s.value) != "subprotocol.write_init(proxy_parameters)":
+            tr_.bad(s, "reply construction")
+        state["res"] = True
+        return env
+    tr = Tr(path, {}, "rat", effects={"self._close_expected": ("assign", close_assign),
+                                      "proxy_parameters": ("assign", params_assign),
+                                      "proxy_parameters[protocol.ARI_VERSION]": ("assign", params_set),
+                                      "res": ("assign", res_assign)})
+    body = tr.block(tryn.orelse, {"advertised_version": ("adv", "str"), "$close": ("closeBefore", "bool"), "$pp": ("none", "ostr")},
+                    lambda e: "(%s, %s)" % (e["$close"][0], e["$pp"][0]))
+    if not state.get("res"):
+        raise Unsupported("_on_init: success reply construction not found")
+    out += "/-- success epilogue of `_on_init`: (new `_close_expected`, value of the `ARI.version` reply parameter). -/\n"
+    out += "def epilogue (adv : String) (closeBefore : Bool) : Bool × Option String :=\n %s\n\n" % body
+    # the hint is applied after try/except/else, on every path
+    after = [ast.unparse(s) for s in f.body[f.body.index(tryn) + 1:]]
+    if after != ["self._use_keep_alive_hint(keep_alive_hint)", "return res"]:
+        raise Unsupported("_on_init: statements after the try changed: %r" % after)
+    out += "/-- shape check passed: `_use_keep_alive_hint(keep_alive_hint)` runs after the try statement on every path. -/\n"
+    out += "def hintAppliedOnEveryPath : Bool := true\n\nend Ari.Gen\n"
+    return out
+
+
+# ------------------------------------------------------------------------------------- G3
+WRITER_METHODS = None
+
+
+def gen_exc():
+    ptree, ppath = parse("protocol.py")
+    out = HEADER % "protocol.py (_EXCEPTIONS_MAP), interfaces/{data,metadata}.py (class statements), data_protocol.py / metadata_protocol.py (designated classes per writer)"
+    out += "namespace Ari.Gen\n\n"
+    # _EXCEPTIONS_MAP
+    emap = None
+    for n in ptree.body:
+        if isinstance(n, ast.Assign) and ast.unparse(n.targets[0]) == "_EXCEPTIONS_MAP":
+            emap = n.value
+    if not isinstance(emap, ast.Dict):
+        raise Unsupported("protocol._EXCEPTIONS_MAP is not a dict literal")
+    pairs = []
+    for k, v in zip(emap.keys, emap.values):
+        if not (isinstance(k, ast.Call) and ast.unparse(k.func) == "str" and isinstance(k.args[0], ast.Name)
+                and isinstance(v, ast.Constant) and isinstance(v.value, str) and len(v.value) == 1):
+            raise Unsupported("_EXCEPTIONS_MAP entry %s" % ast.unparse(k))
+        pairs.append((k.args[0].id, v.value))
+    out += "/-- `_EXCEPTIONS_MAP`: exact class -> subtype code. -/\n"
+    out += "def excMap : List (String × Char) :=\n [" + ", ".join("(%s, '%s')" % (lean_str(c), ch) for c, ch in pairs) + "]\n\n"
+    # _append_exceptions / _handle_exception shape (hand-modelled in Errors.lean): pin their source text
+    shapes = {}
+    for n in ptree.body:
+        if isinstance(n, ast.FunctionDef) and n.name in ("_append_exceptions", "_handle_exception", "_write_init"):
+            shapes[n.name] = ast.unparse(n)
+    # class hierarchy
+    parents = []
+    for rel in ("interfaces/metadata.py", "interfaces/data.py"):
+        t, _ = parse(rel)
+        for n in t.body:
+            if isinstance(n, ast.ClassDef) and n.bases:
+                b = ast.unparse(n.bases[0])
+                if b == "Exception" or any(b == p[0] for p in parents):
+                    if len(n.bases) != 1:
+                        raise Unsupported("multiple inheritance on " + n.name)
+                    parents.append((n.name, b))
+    out += "/-- direct superclass of every exception class defined by the library's interfaces. -/\n"
+    out += "def parents : List (String × String) :=\n [" + ", ".join("(%s, %s)" % (lean_str(a), lean_str(b)) for a, b in parents) + "]\n\n"
+    # designated classes per wire method
+    des = {}
+
+    def method_of(node, fn):
+        """Method.X named in a writer function."""
+        names = set(re.findall(r"Method\.([A-Z0-9]{3})", ast.unparse(fn)))
+        return names
+    for rel in ("data_protocol.py", "metadata_protocol.py"):
+        t, path = parse(rel)
+        for fn in t.body:
+            if not (isinstance(fn, ast.FunctionDef) and fn.name.startswith("write")):
+                continue
+            calls = [c for c in ast.walk(fn) if isinstance(c, ast.Call) and ast.unparse(c.func) in ("_handle_exception", "_write_init")]
+            if not calls:
+                continue
+            if len(calls) != 1:
+                raise Unsupported("%s: several error-reply constructions" % fn.name)
+            c = calls[0]
+            meths = method_of(c, fn)
+            if ast.unparse(c.func) == "_write_init":
+                classes = [ast.unparse(c.args[1])]
+            else:
+                j = ast.unparse(c.args[1])
+                if not re.fullmatch(r"join\((str\()?(method|Method\.[A-Z0-9]{3}(\.name)?)\)?, ['\"]E['\"]\)", j):
+                    raise Unsupported("%s: error reply prefix %s" % (fn.name, j))
+                classes = [ast.unparse(a) for a in c.args[2:]]
+                if any(isinstance(a, ast.Starred) for a in c.args):
+                    raise Unsupported("%s: starred designated classes" % fn.name)
+            if not meths:
+                # method passed as parameter: collect call sites in server.py
+                stree, _ = parse("server.py")
+                for call in ast.walk(stree):
+                    if isinstance(call, ast.Call) and ast.unparse(call.func).endswith("." + fn.name) and call.args:
+                        meths |= set(re.findall(r"Method\.([A-Z0-9]{3})", ast.unparse(call.args[0])))
+            if not meths:
+                raise Unsupported("%s: wire method not identified" % fn.name)
+            for m in meths:
+                if m in des:
+                    raise Unsupported("two writers for method " + m)
+                des[m] = (fn.name, classes)
+    out += "/-- wire method -> (writer function, classes its error reply may type). -/\n"
+    out += "def designated : List (String × String × List String) :=\n [" + ",\n  ".join(
+        "(%s, %s, [%s])" % (lean_str(m), lean_str(fn), ", ".join(lean_str(c) for c in cl)) for m, (fn, cl) in sorted(des.items())) + "]\n\n"
+    import hashlib
+    out += "/-- digest of the source text of `_append_exceptions`, `_handle_exception`, `_write_init` (hand-modelled in\n"
+    out += "    Errors.lean; a change of this digest is reported as a broken tie by the check). -/\n"
+    dig = hashlib.sha256("\n".join(shapes.get(k, "") for k in sorted(shapes)).encode()).hexdigest()[:16]
+    out += "def errorShapeDigest : String := %s\n\nend Ari.Gen\n" % lean_str(dig)
+    return out
+
+
+# ------------------------------------------------------------------------------------- G4
+def gen_pool():
+    tree, path = parse("server.py")
+    srv = find_class(tree, "Server")
+    consts = class_consts(srv, "int", ["Server", "self"])
+    init = find_func(srv, "__init__")
+    stmts, ok_exec = [], False
+    for s in init.body:
+        src = ast.unparse(s)
+        if "thread_pool_size" in src and "ThreadPoolExecutor" not in src or src.startswith("pool ") or src.startswith("if pool"):
+            stmts.append(s)
+        if src == "self._executor = ThreadPoolExecutor(self._config['thread_pool_size'])":
+            ok_exec = True
+    if not ok_exec:
+        raise Unsupported("Server.__init__: executor is not created with the configured pool size")
+
+    def cfg(tr, s, env):
+        a, t = tr.ex(s.value, env)
+        if t != "int":
+            tr.bad(s, "pool size type " + t)
+        e = dict(env)
+        e["$size"] = (a, "int")
+        return e
+
+    def try_cpu(tr, s, env):
+        if len(s.body) != 1 or ast.unparse(s.body[0]) != "self._config['thread_pool_size'] = cpu_count()" \
+                or len(s.handlers) != 1 or ast.unparse(s.handlers[0].type) != "NotImplementedError" \
+                or len(s.handlers[0].body) != 1 or s.orelse or s.finalbody:
+            tr.bad(s, "cpu_count try shape")
+        h = s.handlers[0].body[0]
+        if ast.unparse(h.targets[0]) != "self._config['thread_pool_size']":
+            tr.bad(s, "cpu_count fallback target")
+        a, t = tr.ex(h.value, env)
+        e = dict(env)
+        e["$size"] = ("(match cpu with | some c => c | none => %s)" % a, "int")
+        return e
+    tr = Tr(path, consts, "int", effects={"self._config['thread_pool_size']": ("assign", cfg), "try": ("try", try_cpu)})
+
+    def fin(e):
+        if "$size" not in e:
+            raise Unsupported("pool size not assigned on some path")
+        return e["$size"][0]
+    body = tr.block(stmts, {"thread_pool_size": ("size", "oint")}, fin)
+    out = HEADER % "server.py (Server.__init__ pool sizing)"
+    out += "namespace Ari.Gen\n\n/-- number of pool workers; `cpu` = `cpu_count()` (`none` = NotImplementedError). -/\n"
+    out += "def poolSize (size : Option Int) (cpu : Option Int) : Int :=\n %s\n\nend Ari.Gen\n" % body
+    return out
+
+
+TARGETS = [("KeepAlive", gen_keepalive), ("Version", gen_version), ("Exc", gen_exc), ("Pool", gen_pool)]
+
+
 def regenerate():
     """Returns {'generated': [names], 'broken': [{'target','why'}]}."""
-    return {"generated": [], "broken": []}
+    res = {"generated": [], "broken": []}
+    for name, fn in TARGETS:
+        path = os.path.join(GEN, name + ".lean")
+        try:
+            text = fn()
+        except Unsupported as e:
+            res["broken"].append({"target": name, "why": "UNSUPPORTED " + str(e)})
+            continue
+        except SyntaxError as e:
+            res["broken"].append({"target": name, "why": "source does not parse: %s" % e})
+            continue
+        changed = write_if_changed(path, text)
+        res["generated"].append({"target": name, "file": os.path.relpath(path, C.VERIF), "changed_this_run": changed})
+    return res
+
+
+if __name__ == "__main__":
+    import json
+    print(json.dumps(regenerate(), indent=1))
